@@ -175,11 +175,7 @@ theorem resetZ_n (t : Tab) (q : Nat) (intended o : Bool) : (t.resetZ q intended 
   generalize t.zMeasure q o = m at *
   obtain ⟨t1, outcome, p⟩ := m
   simp only at this ⊢
-  split
-  · exact this
-  · split
-    · exact this
-    · exact this
+  split <;> split <;> exact this
 
 theorem resetZ_valid (t : Tab) (q : Nat) (intended o : Bool) (hq : q < t.n) (hv : t.Valid) :
     (t.resetZ q intended o).Valid := by
@@ -189,11 +185,15 @@ theorem resetZ_valid (t : Tab) (q : Nat) (intended o : Bool) (hq : q < t.n) (hv 
   generalize t.zMeasure q o = m at *
   obtain ⟨t1, outcome, p⟩ := m
   simp only at hn hv1 ⊢
-  split
-  · exact setPhase_valid t1 p intended false hv1
-  · split
+  have hv2 : Valid (if p ≠ 0 then { t1 with row := upd t1.row p { (t1.row p) with ip := false } } else t1) := by
+    split
+    · exact setPhase_valid t1 p (t1.row p).r false hv1
     · exact hv1
-    · exact xGate_valid t1 q (by omega) hv1
+  have hn2 : (if p ≠ 0 then { t1 with row := upd t1.row p { (t1.row p) with ip := false } } else t1).n = t.n := by
+    split <;> exact hn
+  split
+  · exact hv2
+  · exact xGate_valid _ q (hn2 ▸ hq) hv2
 
 theorem resetX_valid (t : Tab) (q : Nat) (intended o : Bool) (hq : q < t.n) (hv : t.Valid) :
     (t.resetX q intended o).Valid :=
